@@ -113,7 +113,13 @@ class Gen:
                 j = i + 1
                 block = []
                 while j < len(lines) and lines[j].strip() != "//@end":
-                    block.append((j + 1, lines[j]))
+                    if lines[j].strip().startswith("//@include "):
+                        # textual include inside a function block (shared invariants / rewrites of two shapes of one function)
+                        inc = os.path.join(os.path.dirname(path), lines[j].strip().split()[1])
+                        for k, il in enumerate(open(inc).read().split("\n")):
+                            block.append((j + 1, il))
+                    else:
+                        block.append((j + 1, lines[j]))
                     j += 1
                 if j >= len(lines):
                     raise Lost("%s:%d: //@fn without //@end" % (rel, i + 1))
@@ -167,6 +173,10 @@ class Gen:
             try:
                 it = find_item(toks, path)
             except Lost:
+                if "ifpresent" in o:
+                    # a function that exists only in one of two supported shapes of the code: absent = nothing to emit
+                    self.count("absent-ifpresent")
+                    return
                 if "optional" not in o:
                     raise
                 # `optional`: the item may legitimately be absent (a type without `impl Drop`): emit an empty method so that
@@ -220,6 +230,13 @@ class Gen:
                     if not m:
                         raise Lost("%s:%d: bad //@hint" % (rel, ln))
                     replaces.append((-1, m.group(1), m.group(2), ln, True))
+                elif p[0] == "forbid":
+                    # after all rewrites the body must not contain this pattern (a construct whose drop/exit elaboration would be
+                    # missing): finding it is a tool problem (exit 2), never a pass
+                    m = re.match(r"forbid\s+/(.*)/\s*$", st[3:])
+                    if not m:
+                        raise Lost("%s:%d: bad //@forbid" % (rel, ln))
+                    replaces.append((-4, m.group(1), "", ln, True))
                 elif p[0] == "sreplace":
                     # like rreplace, but on the signature text
                     m = re.match(r"sreplace\s+(\d+)\s+/(.*)/\s*=>\s*/(.*)/\s*$", st[3:])
@@ -675,6 +692,8 @@ class Gen:
         for cnt, old, new, ln, is_rx in replaces:
             rx = rx_of(old, is_rx)
             found = [m for m in rx.finditer(s)]
+            if cnt == -4:
+                continue
             if cnt == -1:
                 self.count("hint" if found else "hint-dropped")
                 continue
@@ -714,6 +733,8 @@ class Gen:
                 cmap.extend([c[1]] * len(c[0]))
             txt = piece
             for cnt, old, new, ln, is_rx in replaces:
+                if cnt == -4:
+                    continue
                 rx = rx_of(old, is_rx)
                 pos = 0
                 while True:
@@ -729,6 +750,9 @@ class Gen:
                     pos = m.start() + len(rep)
                     if cnt == -1:
                         break
+            for cnt, old, new, ln, is_rx in replaces:
+                if cnt == -4 and re.search(old, txt):
+                    raise Lost("%s (%s:%d): construct /%s/ is still present after the rewrites: its exit/drop elaboration is missing" % (path, rel, ln, old))
             # re-chunk by line
             start = 0
             for mm in re.finditer(r"[^\n]*\n|[^\n]+$", txt):
